@@ -88,6 +88,9 @@ def gen_world(rng, i, tier):
             for nm in rng.subset(["10-a", "9-b", "zz", "A"], 0, 3):
                 fid += 1
                 nodes.append({"p": "%s/%s.conf.d/%s.conf" % (layer, base, nm), "t": "f", "entries": contents(rng, fid, rng.pick([shape, "both", "sections"]), dl[2], ml)})
+    for n in nodes:
+        if rng.chance(0.1):
+            n["tail_sec"] = rng.pick(["reserved", "secB", "empty one"])      # a trailing section header without any entry
     w["nodes"] = nodes
     w["comment_seed"] = rng.getrandbits(32) if rng.chance(0.6) else None
     if nodes and rng.chance(0.25):
@@ -112,6 +115,8 @@ def tree_of(world):
                     out_lines.append("%s note %d" % (r.pick(world["comment"]), len(out_lines)))
                 out_lines.append(line)
             c = "\n".join(out_lines)
+        if n.get("tail_sec"):
+            c = c.rstrip("\n") + ("\n" if c.strip("\n") else "") + "[%s]\n" % n["tail_sec"]
         m = world.get("malformed")
         if m and m[0] % len(world["nodes"]) == k:
             lines = c.split("\n")
@@ -287,6 +292,8 @@ def check(world, plans, results):
         v.probe("single_absolute_file")
     if world.get("rootsub"):
         v.probe("tool_root_with_unusual_characters")
+    if any(n.get("tail_sec") for n in world["nodes"]):
+        v.probe("file_with_entryless_trailing_section")
     return v
 
 
